@@ -48,7 +48,7 @@ def store_rules(R, pfx):
     writers = [MARK, REMOVE]
     R.who_may_write(pfx + ".own.records", NRS, "records", writers, floor=2, descr="records is mutated only by mark_as_stored and remove")
     R.who_may_write(pfx + ".own.by_distance", NRS, "records_by_distance", writers, floor=2, descr="records_by_distance is mutated only by mark_as_stored and remove")
-    R.who_may_write(pfx + ".own.farthest", NRS, "farthest_record", writers + [WITHCFG], floor=3, descr="farthest_record is written only by mark_as_stored, remove, with_config")
+    R.who_may_write(pfx + ".own.farthest", NRS, "farthest_record", writers + [WITHCFG], floor=2, descr="farthest_record is written only by mark_as_stored, remove, with_config")
     # co-mutation
     w1 = set(R.writers_of(NRS, "records"))
     w2 = set(R.writers_of(NRS, "records_by_distance"))
@@ -62,7 +62,7 @@ def store_rules(R, pfx):
 def run(R):
     F = R.F
     store_rules(R, "C01")
-    R.who_may_write("C01.own.cache", NRS, "records_cache", [PUTV, REMOVE], floor=3, descr="records_cache is mutated only by put_verified and remove")
+    R.who_may_write("C01.own.cache", NRS, "records_cache", [PUTV, REMOVE], floor=2, descr="records_cache is mutated only by put_verified and remove")
     R.who_may_call("C01.call.put_verified", [PUTV], [API + "put_verified"], floor=1, descr="NodeRecordStore::put_verified only via UnifiedRecordStore")
     R.who_may_call("C01.call.put_verified.api", [API + "put_verified"], [HLC], floor=1, descr="put_verified only from handle_local_cmd (PutLocalRecord)")
     R.who_may_call("C01.call.mark", [MARK], [API + "mark_as_stored"], floor=1, descr="mark_as_stored only via UnifiedRecordStore")
@@ -270,7 +270,7 @@ def disk_rules(R, pfx="C01"):
     F = R.F
     R.who_may_call(pfx + ".fs.write", WRITE_APIS, [PUTV, NRS + "::flush_historic_quoting_metrics",
                                                 # writes/reads the `network_key_version` marker file in the node's root dir (not a record file)
-                                                "ant_networking::driver::check_and_wipe_storage_dir_if_necessary"], floor=3,
+                                                "ant_networking::driver::check_and_wipe_storage_dir_if_necessary"], floor=2,
                    descr="file-writing APIs in ant_networking only in put_verified (records), flush_historic_quoting_metrics and the version-marker check",
                    ignore_crates=_non(F, "ant_networking"))
     R.who_may_call(pfx + ".fs.remove", ["std::fs::remove_file"], [REMOVE, NRS + "::update_records_from_an_existing_store"], floor=2,
